@@ -72,6 +72,15 @@ def lookalikes(sig_real):
         out.append((args[:-1], dict(kwargs, **{'x': args[-1]}) if 'x' not in kwargs else dict(kwargs)))
         out.append((args[::-1], dict(kwargs)))
         out.append((tuple(str(a) for a in args), dict(kwargs)))
+    # positional-only calls that spell out a plausible *key shape* of the real call: (args, frozenset(items)) passed as two
+    # arguments or as one, items as a sorted / unsorted tuple, keyword names and values flattened behind the positionals
+    out.append(((args, items), {}))
+    out.append((((args, items),), {}))
+    out.append(((args, tuple(sorted(kwargs.items(), key=repr))), {}))
+    out.append(((args, tuple(kwargs.items())), {}))
+    if kwargs:
+        out.append((args + tuple(x for kv in kwargs.items() for x in kv), {}))
+        out.append((args + tuple(x for kv in sorted(kwargs.items(), key=repr) for x in kv), {}))
     out.append((args + ((),), dict(kwargs)))
     out.append((args, dict(kwargs, z=None)))
     return [o for o in out if o != (args, kwargs)]
